@@ -79,6 +79,20 @@ Fixpoint keep (pos len : nat) (ps : list patch) : list patch :=
 Definition apply (ps : list patch) (s : list N) : outcome :=
   apply_loop (sort_patches ps) s 0 [].
 
+(* The whole command on ONE file that was named [spellings] times on the
+   command line, each time written differently (`ns1:a.yar ns2:./a.yar`): every
+   compilation of the file reports the same patches; the command makes one
+   read-patch-write round per key of its map, so with the path as written for
+   a key the file goes through [spellings] rounds, each with the patches that
+   were computed for the ORIGINAL content. *)
+Fixpoint apply_rounds (n : nat) (ps : list patch) (s : list N) : outcome :=
+  match n with
+  | 0 => Ok s
+  | S n' => match apply ps s with Ok out => apply_rounds n' ps out | o => o end
+  end.
+Definition yr_file (spellings : nat) (ps : list patch) (s : list N) : outcome :=
+  apply_rounds (if groups_by_path_as_given then spellings else 1) ps s.
+
 (* ---- specification level ---- *)
 (* one replacement on a text *)
 Definition replace1 (p : patch) (s : list N) : list N :=
